@@ -8,7 +8,11 @@
 (*   par   [baseFee, noBaseFee, mgp18, mult18, maxGas]  parameters in effect *)
 (*         (mgp18 / mult18: MinGasPrice / MinGasMultiplier x 10^18, FeeDec)  *)
 (*   route "cosmos" | "eth"                                                  *)
-(*   cos   [gas, fee, hasFee, ext, maxPrio, amount]  the Cosmos MsgSend tx    *)
+(*   cos   [gas, fee, hasFee, ext, sign, maxPrio, amount]  the Cosmos MsgSend  *)
+(*         tx; ext is the extension option that selects the ante chain       *)
+(*         ("none" | "dynfee": default Cosmos chain, "web3": the legacy      *)
+(*         EIP-712 chain), sign how it is signed ("direct" | "amino" |       *)
+(*         "eip712"; a web3 transaction is always signed the EIP-712 way)    *)
 (*   msgs  sequence of Ethereum messages [from, type, gas, gasPrice, cap,     *)
 (*         tip, value, prog, nz, z, alAddrs, alKeys, slots, twinGas,          *)
 (*         resp : [present, gasUsed, failed, outcome]]; every message is      *)
@@ -53,14 +57,23 @@ Intrinsic(m) ==
     BigAdd(BigMul("2400", m.alAddrs), BigMul("1900", m.alKeys)))))
 \* revert program: PUSH1 PUSH1 REVERT = 6 gas, the rest is returned; without 6 gas it runs out
 RevertGas(m) == LET need == BigAdd(Intrinsic(m), "6") IN IF BigLE(need, m.gas) THEN need ELSE m.gas
-\* programs whose EVM gas the specification computes itself
-Scripted == {"transfer", "calldata", "stop", "create", "revert", "invalid", "loop"}
-EvmGasKnown(m) == m.prog \in Scripted \/ (m.prog = "sstore" /\ m.twinGas # "-1")
+\* SSTORE-clearing program: per slot PUSH1 PUSH1 SSTORE of a cold, non-zero slot to zero = 3 + 3 +
+\* 2100 (EIP-2929 cold access) + 2900 (reset) = 5006 gas and 4800 on the refund counter (EIP-3529);
+\* the refund is capped at one fifth of the gas CONSUMED (EIP-3529) - whatever the gas limit is.
+\* Without enough gas for all slots the execution runs out of gas and consumes everything.
+SstoreExec(m)    == BigAdd(Intrinsic(m), BigMul("5006", m.slots))
+SstoreCounter(m) == BigMul("4800", m.slots)
+SstoreRefund(m)  == BigMin(SstoreCounter(m), BigQuo(SstoreExec(m), "5"))
+SstoreGas(m)     == IF BigLE(SstoreExec(m), m.gas) THEN BigSub(SstoreExec(m), SstoreRefund(m)) ELSE m.gas
+\* programs whose EVM gas (after refunds) the specification computes itself, from the gas schedule
+\* only - never from a response of the code under test, never as a function of spare gas
+Scripted == {"transfer", "calldata", "stop", "create", "revert", "invalid", "loop", "sstore"}
+EvmGasKnown(m) == m.prog \in Scripted
 EvmGas(m) ==
     CASE m.prog \in {"transfer", "calldata", "stop", "create"} -> Intrinsic(m)
       [] m.prog = "revert"                                       -> RevertGas(m)
       [] m.prog \in {"invalid", "loop"}                          -> m.gas      \* consumes everything
-      [] m.prog = "sstore"                                       -> m.twinGas  \* measured: same message, multiplier 0
+      [] m.prog = "sstore"                                       -> SstoreGas(m)
       [] OTHER                                                   -> "-1"
 
 \* minGasMultiplier x gasLimit; gas is integral, either integer neighbour is accepted by P
@@ -97,12 +110,13 @@ MsgClass(e, i) == "type=" \o e.msgs[i].type \o ",outcome=" \o e.msgs[i].resp.out
 \*     transaction provides nor the fee it is actually charged (what the fee collector receives).
 \*     Gas prices are integral: a charged fee of (integer price) x gas may fall short of a fractional
 \*     floor by less than one price unit per gas, which P tolerates (charged + gas >= floor).
+CosClass(c) == "ext=" \o c.ext \o (IF c.ext # "web3" /\ c.sign # "direct" THEN ",sign=" \o c.sign ELSE "")
 PViolCosmos(e) ==
     LET c    == e.cos
         prov == MeetsFloor(c.fee, e, c.gas)
         chg  == MeetsFloor(BigAdd(Delta(e, "collector"), c.gas), e, c.gas)
-    IN  (IF ~prov THEN {V("floor-undercut", "route=cosmos,fee=provided,ext=" \o c.ext)} ELSE {})
-        \cup (IF prov /\ ~chg THEN {V("floor-undercut", "route=cosmos,fee=charged,ext=" \o c.ext \o "," \o BaseRel(e))} ELSE {})
+    IN  (IF ~prov THEN {V("floor-undercut", "route=cosmos,fee=provided," \o CosClass(c))} ELSE {})
+        \cup (IF prov /\ ~chg THEN {V("floor-undercut", "route=cosmos,fee=charged," \o CosClass(c) \o "," \o BaseRel(e))} ELSE {})
 
 \* (a) Ethereum route, and (b) per message: gasUsed = max(evmGas, multiplier x gasLimit) <= gasLimit
 GasUsedAllowed(e, m) == {BigMax(EvmGas(m), ClampLo(e, m)), BigMax(EvmGas(m), ClampHi(e, m))}
@@ -149,7 +163,6 @@ PViol(e) ==
 MaxInt64 == "9223372036854775807"
 
 \* x/evm execution of the scripted programs (go-ethereum interpreter + EIP-3529 refunds)
-SstoreExec(m) == BigAdd(Intrinsic(m), BigMul("5006", m.slots))   \* PUSH1 PUSH1 SSTORE(cold, clear) per slot
 MEvm(m) ==
     CASE m.prog \in {"transfer", "calldata", "stop", "create"} -> [gas |-> Intrinsic(m), failed |-> FALSE]
       [] m.prog = "revert"             -> [gas |-> RevertGas(m), failed |-> TRUE]
@@ -157,10 +170,13 @@ MEvm(m) ==
       [] m.prog = "sstore" ->
             IF BigLE(SstoreExec(m), m.gas)
             THEN \* state_transition.go: refund = min(refund counter, gasUsed / 5), 4800 per cleared slot
-                 [gas |-> BigSub(SstoreExec(m), BigMin(BigMul("4800", m.slots), BigQuo(SstoreExec(m), "5"))), failed |-> FALSE]
+                 \* (the counter is SstoreCounter, "gasUsed" the gas consumed so far: msg.Gas() - leftoverGas)
+                 [gas |-> BigSub(SstoreExec(m), BigMin(SstoreCounter(m), BigQuo(SstoreExec(m), "5"))), failed |-> FALSE]
             ELSE [gas |-> m.gas, failed |-> TRUE]
 
-\* app/ante/cosmos: MinGasPriceDecorator (provided fee >= ceil(minGasPrice x gas)), then
+\* app/ante (NewAnteHandler routes on the first extension option: none / DynamicFee -> the default
+\* Cosmos chain, Web3Tx -> the legacy EIP-712 chain; the two lists differ in signature verification
+\* only, whatever the sign mode): MinGasPriceDecorator (provided fee >= ceil(minGasPrice x gas)), then
 \* DeductFeeDecorator with the DynamicFeeChecker of app/ante/evm/fee_checker.go: the fee that is
 \* *deducted* is min(baseFee + maxPriorityPrice, fee / gas) x gas, which nothing holds to the floor
 MCosmos(e) ==
